@@ -117,7 +117,7 @@ def run(ctx, replay=None):
             key_fields=('kind', 'expr', 'model', 'globals'), nontrivial=lambda c: True)
     dbg = sum(1 for c in cases for e in c['trace'] if e['ev'] == 'dbgfail')
     if not dbg:
-        raise tlc.MachineryError('vacuity: no debug-mode failure report was observed')
+        ctx.vacuous('vacuity: no debug-mode failure report was observed')
     ctx.notes.update({'operator_cases': n_ops, 'library_calls': n_lib, 'library_functions': len(names),
                       'debug_failure_reports_seen': dbg})
     return F.finish(ctx, rule='6 arithmetic operators x adversarial operand pairs; every function of SCRIPT_FUNCTIONS x argument '
